@@ -224,6 +224,7 @@ package parser
 //@   requires parser != nil && parser.Source != nil
 //@   at call peek: assert arg1 == lexer.AT
 //@   at call parseDirective: assert parser.Token.Kind == lexer.AT
+//@   loop 1 invariant old(parser.Token.Kind) != lexer.AT ==> parser.Token == old(parser.Token) && len(directives) == 0
 //@   ensures old(parser.Token.Kind) != lexer.AT ==> result1 == nil && len(result0) == 0
 //@ func parseDirective
 //@   props C03 C18
@@ -348,6 +349,7 @@ package parser
 //@   assigns class:parser.Parser.PrevEnd, class:parser.Parser.Token, class:ast., class:E|
 //@   requires parser != nil && parser.Source != nil
 //@   at call skip: assert arg1 == lexer.EOF
+//@   loop 1 invariant parser.Source != nil
 //@   at call item: assert arg0 == parser && (parser.Token.Kind == lexer.BRACE_L || parser.Token.Kind == lexer.NAME || parser.Token.Kind == lexer.STRING || parser.Token.Kind == lexer.BLOCK_STRING)
 //@   loop 1 ensures len(nodes) == atloop(1, len(nodes)) + 1 && calls("item") == atloop(1, calls("item")) + 1
 
@@ -358,3 +360,7 @@ package parser
 //@ func parseStringLiteral
 //@   trusted
 //@   assigns class:parser.Parser.PrevEnd, class:parser.Parser.Token, class:ast., class:E|
+//@ func unexpectedEmpty
+//@   trusted
+//@   assigns nothing
+//@   ensures result != nil
